@@ -328,6 +328,9 @@ def check(ix, rep):
     from sa.rules import units as _u
     nfx = _u.check_forwarding_exact(ix, rep)
     rep.floor('arguments forwarded from the specification to the ast', nfx, 8)
+    # one node per occurrence: the parser's dispatch hands back the node built for the tree it was given
+    from sa.rules import parserrules as _Pfresh
+    rep.floor('parser dispatch methods checked for node sharing', _Pfresh.check_dispatch_transparent(ix, rep), 2)
     explanation = (
         'Parser shape: visitExprId resolves an identifier as declared constant (-> Constant(value)) or sub-spec name (-> the node '
         'bound to it) before any variable handling; visitAssertion registers the node under its name and appends the same object to '
